@@ -1,7 +1,7 @@
 //! C18 — invalid configurations are rejected before any input is read or output written.
 
 use super::{Prop, COMMON_ASSUMPTIONS};
-use crate::ctx::Ctx;
+use crate::ctx::{Ctx, Tier};
 use crate::drive::Case;
 use crate::refmodel::ftable;
 
@@ -195,7 +195,20 @@ fn canonical_args(f: &ftable::F) -> Vec<&'static str> {
 fn run(ctx: &mut Ctx) {
     // 1. expression corruptions in every position and style
     for (pi, pos) in POSITIONS.iter().enumerate() {
-        for (bi, base) in all_bases().iter().enumerate() {
+        let mut bases: Vec<&'static str> = all_bases();
+        let own = bases.len();
+        if ctx.tier == Tier::Thorough {
+            // thorough: the documented example call of every function is a base expression too
+            for (_, text, _) in super::c04::canonical_calls() {
+                if text.len() <= 120 && !text.contains('\n') {
+                    bases.push(Box::leak(text.into_boxed_str()));
+                }
+            }
+        }
+        for (bi, base) in bases.iter().enumerate() {
+            if bi >= own && *pos == "setvar" {
+                continue; // a variable needs a value on the empty input; the examples are about other things
+            }
             for style in 0..STYLES.len() {
                 if !ctx.mine() {
                     continue;
